@@ -38,7 +38,7 @@ ASSUMPTIONS = [
     "compared with abs 4*(n-1)*d_e + 2e-5*max(|value|, s) (float32 evaluation on both sides) - 1.1e-3 + 2e-5*|value| at the largest "
     "offset, i.e. the design's 1e-3*(1+|offset|/100) derived instead of postulated, and proportionally tighter for small scales; ratios "
     "(tortuosity, contraction: denominators >= 0.5 s by bank validation, s/16 in the compact geometry) with abs 2*4*(n-1)*d_e/min_len + 2e-5",
-    "angles: a vector of length >= 0.5 s turns by <= d_e/|v|; amplitude/tilt tolerance = 1.5*deg(2*d_e/(0.5 s)) + the float32 cos/arccos "
+    "angles: a vector of length >= min_len (0.5 s; s/16 compact) turns by <= d_e/|v|; amplitude/tilt tolerance = 1.5*deg(2*d_e/min_len) + the float32 cos/arccos "
     "tolerance of C10; torque tolerance additionally divides by sin(amplitude) of both planes (plane normals), computed per case",
     "torque depends on which daughter is called the first (t <-> 180-t); min(t, 180-t) is compared",
     "volume: every inclusion-exclusion term is Lipschitz in a segment length with constant <= pi*rmax^2, 4 terms per segment: tolerance "
@@ -283,7 +283,7 @@ def check_case(case, R):
 
 def spaces(tier, seed):
     bank_k = seed % 4
-    mot_hi, ren_hi, sc_hi = (5, 5, 5) if tier == "quick" else (7, 6, 7)
+    mot_hi, ren_hi, sc_hi = (5, 5, 5) if tier == "quick" else (6, 6, 7)
 
     def trees(hi):
         for n in range(1, hi + 1):
